@@ -26,7 +26,24 @@ func (e Encoder) AppendTime(dst []byte, t time.Time, format string) []byte {
 	case timeFormatUnixNano:
 		return e.AppendInt64(dst, t.UnixNano())
 	}
-	return append(t.AppendFormat(append(dst, '"'), format), '"')
+	return appendFormattedTime(dst, t, format)
+}
+
+// appendFormattedTime appends t, formatted with the given layout, as a JSON
+// string. Literal text of the layout and the zone name are caller supplied:
+// they get the same escaping as any other string (the common case, where
+// nothing needs escaping, costs one pass over the formatted bytes).
+func appendFormattedTime(dst []byte, t time.Time, format string) []byte {
+	dst = append(dst, '"')
+	start := len(dst)
+	dst = t.AppendFormat(dst, format)
+	for i := start; i < len(dst); i++ {
+		if !noEscapeTable[dst[i]] {
+			s := string(dst[start:])
+			return append(appendStringComplex(dst[:start], s, i-start), '"')
+		}
+	}
+	return append(dst, '"')
 }
 
 // AppendTimes converts the input times with the given format
@@ -46,10 +63,10 @@ func (Encoder) AppendTimes(dst []byte, vals []time.Time, format string) []byte {
 		return append(dst, '[', ']')
 	}
 	dst = append(dst, '[')
-	dst = append(vals[0].AppendFormat(append(dst, '"'), format), '"')
+	dst = appendFormattedTime(dst, vals[0], format)
 	if len(vals) > 1 {
 		for _, t := range vals[1:] {
-			dst = append(t.AppendFormat(append(dst, ',', '"'), format), '"')
+			dst = appendFormattedTime(append(dst, ','), t, format)
 		}
 	}
 	dst = append(dst, ']')
